@@ -43,7 +43,9 @@ def sweep(h, rep, jobs, label, stats, on_result=None, max_report=3):
                 mm = re.search(r"steps=(\d+)", l)
                 if mm: stats["_steps"] = stats.get("_steps", 0) + int(mm.group(1))
         handled = on_result(j, r, st, det, io) if on_result else False
-        if not handled and st in ("diverge", "stop-mismatch", "result-mismatch", "output-mismatch", "final-mismatch", "model-timeout"):
+        # a model run that exceeds its time limit (long samples on a loaded machine) is NOT a divergence: it is counted under its own
+        # status and not compared — an alarm must come from the code, never from the clock
+        if not handled and st in ("diverge", "stop-mismatch", "result-mismatch", "output-mismatch", "final-mismatch"):
             pending.append((j, r, st, det, io))
         out.append((j, r, st, det, io))
         if not (pending and pending[-1][1] is r):
